@@ -803,11 +803,25 @@ func Regex(ctx *context.Context, left, right value.Value) (value.Value, error) {
 	}
 }
 
+// matchesAcl reports whether ip matches the ACL: the most specific entry (longest
+// prefix) containing the address decides, and the address matches unless that
+// entry is negated. An entry without a mask is a single host (/32 for IPv4,
+// /128 for IPv6). The result does not depend on the order of the entries; when
+// the same prefix is listed both plain and negated the negated entry wins.
 func matchesAcl(acl value.Acl, ip net.IP) (bool, error) {
+	best := -1
+	matched := false
 	for _, entry := range acl.Value.CIDRs {
-		var mask int64 = 32
+		addr := net.ParseIP(entry.IP.Value)
+		if addr == nil {
+			return false, fmt.Errorf("failed to parse IP %s", entry.IP.Value)
+		}
+		mask := 128
+		if addr.To4() != nil {
+			mask = 32
+		}
 		if entry.Mask != nil {
-			mask = entry.Mask.Value
+			mask = int(entry.Mask.Value)
 		}
 
 		cidr := fmt.Sprintf("%s/%d", entry.IP.Value, mask)
@@ -815,13 +829,18 @@ func matchesAcl(acl value.Acl, ip net.IP) (bool, error) {
 		if err != nil {
 			return false, fmt.Errorf("failed to parse CIDR %s", cidr)
 		}
-		if ipnet.Contains(ip) {
-			return true, nil
-		} else if entry.Inverse != nil && entry.Inverse.Value {
-			return true, nil
+		if !ipnet.Contains(ip) {
+			continue
+		}
+		inverse := entry.Inverse != nil && entry.Inverse.Value
+		if mask > best {
+			best = mask
+			matched = !inverse
+		} else if mask == best && inverse {
+			matched = false
 		}
 	}
-	return false, nil
+	return matched, nil
 }
 
 func NotRegex(ctx *context.Context, left, right value.Value) (value.Value, error) {
